@@ -836,6 +836,19 @@ def ev_l1hist(case):
         with lib("warm-up"):
             for _ in range(W):
                 ch.take_step()
+        if case.get("reloaded"):
+            # the chain is saved and reloaded (with the same posterior) before the explored step: still the same target
+            import os
+            import tempfile
+
+            fd, path = tempfile.mkstemp(suffix=".npz")
+            os.close(fd)
+            try:
+                with lib("save-load"):
+                    ch.save(path)
+                    ch = type(ch).load(path, posterior=post)
+            finally:
+                os.unlink(path)
         cur = ch.get_last().copy()
         info = {"cur": cur, "p": float(ch.probs[-1]), "sigmas": [float(p.sigma) for p in ch.params],
                 "adapted": any(len(p.sigma_values) > 1 for p in ch.params), "dir_updates": len(getattr(ch, "update_history", []))}
@@ -892,7 +905,7 @@ def ev_l1hist(case):
             elif abs(res["prob"] - smooth_post(np.array(res["recorded"])) / T) > 1e-10 * (1 + abs(res["prob"])):
                 add_fail(f"l1hist/{name}/recorded-probability-wrong-after-history", f"{res['prob']!r}", choices=ctx.choices)
         if res is not None:
-            tags.add(f"l1hist:{name}:W={W}:adapted={res['adapted']}:dir_updates={min(res['dir_updates'], 2)}:T={T}")
+            tags.add(f"l1hist:{name}:W={W}:adapted={res['adapted']}:dir_updates={min(res['dir_updates'], 2)}:T={T}" + (":reloaded" if case.get("reloaded") else ""))
     return {"fails": fails, "n": nexec, "states": 1, "transitions": ntrans, "tags": tags, "sample": {"config": case, "after_history": {k: v for k, v in first.items() if k in ("sigmas", "adapted", "dir_updates")}}}
 
 
@@ -909,6 +922,8 @@ def l1hist_cases(ck):
                         if ck.quick and d == 3 and limits == "box":
                             continue
                         out.append(dict(sampler=kind, d=d, T=T, warm=W, limits=limits, seed=3 + ck.seed + W, bound=2 if ck.quick else 3))
+                        if W in (7, 12) and d <= 2:
+                            out.append(dict(sampler=kind, d=d, T=T, warm=W, limits=limits, seed=3 + ck.seed + W, bound=2 if ck.quick else 3, reloaded=True))
     # try-count halving of the proposal width inside the explored step itself
     for kind in ("GibbsChain", "MetropolisChain"):
         out.append(dict(sampler=kind, d=1, T=1.0, warm=5, limits=None, seed=11 + ck.seed, bound=3, max_tries=1, maxeval=6))
